@@ -2335,6 +2335,19 @@ static int ZSTD_shouldAttachDict(const ZSTD_CDict* cdict,
 {
     size_t cutoff = attachDictSizeCutoffs[cdict->matchState.cParams.strategy];
     int const dedicatedDictSearch = cdict->matchState.dedicatedDictSearch;
+    /* A CDict with tagged ("short cache") tables only retains the end of a very large dictionary,
+     * while its repeat offsets were validated against the whole content :
+     * the attached-dictionary matchfinders do not support a repeat offset beyond the retained content,
+     * the copying path does (ZSTD_compressBlock_fast() and _doubleFast() discard it) */
+    if (ZSTD_CDictIndicesAreTagged(&cdict->matchState.cParams)) {
+        U32 const retained = (U32)(cdict->matchState.window.nextSrc - cdict->matchState.window.base)
+                           - cdict->matchState.window.dictLimit;
+        U32 const shortCacheMaxDictSize = (1u << (32 - ZSTD_SHORT_CACHE_TAG_BITS)) - ZSTD_WINDOW_START_INDEX;
+        if (retained >= shortCacheMaxDictSize) {   /* content was possibly truncated */
+            int u;
+            for (u=0; u<ZSTD_REP_NUM; u++) {
+                if (cdict->cBlockState.rep[u] > retained) return 0;
+    }   }   }
     return dedicatedDictSearch
         || ( ( pledgedSrcSize <= cutoff
             || pledgedSrcSize == ZSTD_CONTENTSIZE_UNKNOWN
